@@ -1,25 +1,27 @@
 import PytezosModel.Proofs.InterpSound
 import PytezosModel.Proofs.InterpRefine
+set_option linter.unusedSectionVars false   -- `[Mode]` is a section variable of every lemma here; some do not use it
 /-! Type soundness (preservation) of the reference semantics: a typed program run on a well-formed stack of the
 right types leaves a well-formed stack whose runtime types are the statically assigned ones. -/
 namespace Interp
+variable [Mode]
 open Typing
 
 theorem typeInstr_simple (i : Instr) (hc : isControl i = false) (hl : isLiteral i = false) (ts : List Ty) :
-    typeInstr false i ts = Typing.step i ts := by
+    typeInstr Mode.strict i ts = Typing.step i ts := by
   cases i <;> first | (simp [isControl] at hc; done) | (simp [isLiteral] at hl; done) | simp [typeInstr]
 
 def SoundE (env : Env) (f : Nat) : Prop :=
-  ∀ i st st' tr, StackWF st → Spec.eval false env f i st = .ok st' → typeInstr false i (st.map typeOf) = some tr →
+  ∀ i st st' tr, StackWF st → Spec.eval false env f i st = .ok st' → typeInstr Mode.strict i (st.map typeOf) = some tr →
     StackWF st' ∧ tr = .ok (st'.map typeOf)
 
 def SoundS (env : Env) (f : Nat) : Prop :=
-  ∀ is st st' tr, StackWF st → Spec.evalSeq false env f is st = .ok st' → typeSeq false is (st.map typeOf) = some tr →
+  ∀ is st st' tr, StackWF st → Spec.evalSeq false env f is st = .ok st' → typeSeq Mode.strict is (st.map typeOf) = some tr →
     StackWF st' ∧ tr = .ok (st'.map typeOf)
 
 /-- a loop body typed `t :: S → S` (or always failing) -/
 def BodyKeeps (body : Instr) (t : Ty) (S : List Ty) : Prop :=
-  typeInstr false body (t :: S) = some (.ok S) ∨ typeInstr false body (t :: S) = some .failed
+  typeInstr Mode.strict body (t :: S) = some (.ok S) ∨ typeInstr Mode.strict body (t :: S) = some .failed
 
 def SoundI (env : Env) (f : Nat) : Prop :=
   ∀ body xs st st' t, (∀ x ∈ xs, WF x ∧ typeOf x = t) → StackWF st → BodyKeeps body t (st.map typeOf) →
@@ -33,7 +35,7 @@ def itemTy (isMap : Bool) (t t' : Ty) : Ty :=
 
 def SoundM (env : Env) (f : Nat) : Prop :=
   ∀ body isMap xs st ys st' t t', (∀ x ∈ xs, WF x ∧ typeOf x = t) → StackWF st →
-    typeInstr false body (t :: st.map typeOf) = some (.ok (t' :: st.map typeOf)) →
+    typeInstr Mode.strict body (t :: st.map typeOf) = some (.ok (t' :: st.map typeOf)) →
     (isMap = true → ∃ k v, t = .pair k v) →
     Spec.evalMap false env f body isMap xs st = .ok (ys, st') →
     (∀ y ∈ ys, WF y ∧ typeOf y = itemTy isMap t t') ∧ StackWF st' ∧ st'.map typeOf = st.map typeOf ∧ (ys = [] → xs = [])
@@ -69,7 +71,7 @@ theorem soundS_succ (hS : SoundS env f) : SoundS env (f + 1) := by
         | succ f' => simp [Spec.evalSeq] at hev; subst hev; exact ⟨h1, h2⟩
       | cons j js =>
         simp only [typeSeq] at hty
-        cases hti : typeInstr false i (st.map typeOf) with
+        cases hti : typeInstr Mode.strict i (st.map typeOf) with
         | none => simp [hti] at hty
         | some tr1 =>
           obtain ⟨h1, h2⟩ := hE i st st1 tr1 hw hq hti
@@ -147,7 +149,7 @@ theorem soundM_succ (hM : SoundM env f) : SoundM env (f + 1) := by
             obtain ⟨ys', st2⟩ := p
             simp [hr] at hev
             obtain ⟨rfl, rfl⟩ := hev
-            have hb' : typeInstr false body (t :: st1.map typeOf) = some (.ok (t' :: st1.map typeOf)) := by
+            have hb' : typeInstr Mode.strict body (t :: st1.map typeOf) = some (.ok (t' :: st1.map typeOf)) := by
               rw [← h2.2]; exact hb
             obtain ⟨g1, g2, g3, _⟩ := hM body isMap xs st1 ys' _ t t' (fun z hz => hxs z (by simp [hz])) h1.2 hb' hk hr
             refine ⟨?_, g2, by rw [g3, ← h2.2], by simp⟩
@@ -171,6 +173,7 @@ end
 end Interp
 
 namespace Interp
+variable [Mode]
 open Typing
 
 theorem join_left {T : List Ty} {b tr : TRes} (h : join (.ok T) b = some tr) : tr = .ok T := by
@@ -198,7 +201,7 @@ include hE in
 /-- branch instructions: the taken branch is typed, the other one only has to be typable -/
 theorem sound_branch (taken : Instr) (st0 st' : List Val) (other : Option TRes) (tr : TRes) (left : Bool)
     (hw : StackWF st0) (hev : Spec.eval false env f taken st0 = .ok st')
-    (hty : ∃ a b, typeInstr false taken (st0.map typeOf) = some a ∧ other = some b ∧
+    (hty : ∃ a b, typeInstr Mode.strict taken (st0.map typeOf) = some a ∧ other = some b ∧
       (if left then join a b else join b a) = some tr) :
     StackWF st' ∧ tr = .ok (st'.map typeOf) := by
   obtain ⟨a, b, ha, _, hj⟩ := hty
@@ -213,6 +216,7 @@ end
 end Interp
 
 namespace Interp
+variable [Mode]
 open Typing
 
 section
@@ -282,7 +286,7 @@ theorem soundE_succ : SoundE env (f + 1) := by
     | ok st1 =>
       simp [hq] at hev; subst hev
       simp only [List.map_cons, typeInstr] at hty
-      cases hb : typeInstr false body (st.map typeOf) with
+      cases hb : typeInstr Mode.strict body (st.map typeOf) with
       | none => simp [hb] at hty
       | some tb =>
         obtain ⟨h1, h2⟩ := hE body st st1 tb hw.2 hq hb
@@ -302,7 +306,7 @@ theorem soundE_succ : SoundE env (f + 1) := by
       | ok st1 =>
         simp [hq] at hev; subst hev
         simp only [typeInstr, List.length_map, hn, if_true] at hty
-        cases hb : typeInstr false body ((st.map typeOf).drop n) with
+        cases hb : typeInstr Mode.strict body ((st.map typeOf).drop n) with
         | none => simp [hb] at hty
         | some tb =>
           obtain ⟨h1, h2⟩ := hE body (st.drop n) st1 tb (stackWF_drop hw n) hq (by rw [List.map_drop]; exact hb)
@@ -318,7 +322,7 @@ theorem soundE_succ : SoundE env (f + 1) := by
     rename_i b
     simp only [Spec.eval] at hev
     simp only [List.map_cons, typeOf, typeInstr] at hty
-    cases h1 : typeInstr false bt (st.map typeOf) <;> cases h2 : typeInstr false bf (st.map typeOf) <;>
+    cases h1 : typeInstr Mode.strict bt (st.map typeOf) <;> cases h2 : typeInstr Mode.strict bf (st.map typeOf) <;>
       simp only [h1, h2] at hty <;> first | (simp at hty; done) | skip
     rename_i ta tb
     cases b with
@@ -333,7 +337,7 @@ theorem soundE_succ : SoundE env (f + 1) := by
       rename_i v
       simp only [Spec.eval] at hev
       simp only [List.map_cons, typeOf, typeInstr] at hty
-      cases h1 : typeInstr false bn (st.map typeOf) <;> cases h2 : typeInstr false bs (typeOf v :: st.map typeOf) <;>
+      cases h1 : typeInstr Mode.strict bn (st.map typeOf) <;> cases h2 : typeInstr Mode.strict bs (typeOf v :: st.map typeOf) <;>
         simp only [h1, h2] at hty <;> first | (simp at hty; done) | skip
       rename_i ta tb
       have hwv : StackWF (v :: st) := stackWF_cons.mpr ⟨(wf_some v).mp hw.1, hw.2⟩
@@ -342,7 +346,7 @@ theorem soundE_succ : SoundE env (f + 1) := by
       rename_i t
       simp only [Spec.eval] at hev
       simp only [List.map_cons, typeOf, typeInstr] at hty
-      cases h1 : typeInstr false bn (st.map typeOf) <;> cases h2 : typeInstr false bs (t :: st.map typeOf) <;>
+      cases h1 : typeInstr Mode.strict bn (st.map typeOf) <;> cases h2 : typeInstr Mode.strict bs (t :: st.map typeOf) <;>
         simp only [h1, h2] at hty <;> first | (simp at hty; done) | skip
       rename_i ta tb
       exact sound_branch env f hE bn st st' (some tb) tr true hw.2 hev ⟨ta, tb, h1, rfl, by simpa using hty⟩
@@ -354,7 +358,7 @@ theorem soundE_succ : SoundE env (f + 1) := by
     · rename_i v tr'
       simp only [Spec.eval] at hev
       simp only [List.map_cons, typeOf, typeInstr] at hty
-      cases h1 : typeInstr false bl (typeOf v :: st.map typeOf) <;> cases h2 : typeInstr false br (tr' :: st.map typeOf) <;>
+      cases h1 : typeInstr Mode.strict bl (typeOf v :: st.map typeOf) <;> cases h2 : typeInstr Mode.strict br (tr' :: st.map typeOf) <;>
         simp only [h1, h2] at hty <;> first | (simp at hty; done) | skip
       rename_i ta tb
       have hwv : StackWF (v :: st) := stackWF_cons.mpr ⟨(wf_left v tr').mp hw.1, hw.2⟩
@@ -362,7 +366,7 @@ theorem soundE_succ : SoundE env (f + 1) := by
     · rename_i tl v
       simp only [Spec.eval] at hev
       simp only [List.map_cons, typeOf, typeInstr] at hty
-      cases h1 : typeInstr false bl (tl :: st.map typeOf) <;> cases h2 : typeInstr false br (typeOf v :: st.map typeOf) <;>
+      cases h1 : typeInstr Mode.strict bl (tl :: st.map typeOf) <;> cases h2 : typeInstr Mode.strict br (typeOf v :: st.map typeOf) <;>
         simp only [h1, h2] at hty <;> first | (simp at hty; done) | skip
       rename_i ta tb
       have hwv : StackWF (v :: st) := stackWF_cons.mpr ⟨(wf_right v tl).mp hw.1, hw.2⟩
@@ -375,7 +379,7 @@ theorem soundE_succ : SoundE env (f + 1) := by
     rename_i t xs
     have hall := allTy_iff.mp ((wf_list t xs).mp hw.1)
     simp only [List.map_cons, typeOf, typeInstr] at hty
-    cases h1 : typeInstr false bc (t :: .list t :: st.map typeOf) <;> cases h2 : typeInstr false bn (st.map typeOf) <;>
+    cases h1 : typeInstr Mode.strict bc (t :: .list t :: st.map typeOf) <;> cases h2 : typeInstr Mode.strict bn (st.map typeOf) <;>
       simp only [h1, h2] at hty <;> first | (simp at hty; done) | skip
     rename_i ta tb
     cases xs with
@@ -417,7 +421,7 @@ theorem soundE_succ : SoundE env (f + 1) := by
       | offguard => simp [hq] at hev
       | ok st1 =>
         simp only [hq, rbind_ok] at hev
-        cases hb : typeInstr false body (st.map typeOf) with
+        cases hb : typeInstr Mode.strict body (st.map typeOf) with
         | none => simp [hb] at hty
         | some tb =>
           obtain ⟨h1, h2⟩ := hE body st st1 tb hw.2 hq hb
@@ -446,7 +450,7 @@ theorem soundE_succ : SoundE env (f + 1) := by
       | ok st1 =>
         simp only [hq, rbind_ok] at hev
         have hwv : StackWF (v :: st) := stackWF_cons.mpr ⟨(wf_left v r).mp hw.1, hw.2⟩
-        cases hb : typeInstr false body (typeOf v :: st.map typeOf) with
+        cases hb : typeInstr Mode.strict body (typeOf v :: st.map typeOf) with
         | none => simp [hb] at hty
         | some tb =>
           obtain ⟨h1, h2⟩ := hE body (v :: st) st1 tb hwv hq (by simpa using hb)
@@ -526,7 +530,7 @@ theorem soundE_succ : SoundE env (f + 1) := by
       have hall := allTy_iff.mp ((wf_list t xs).mp hw.1)
       simp only [Spec.eval] at hev
       simp only [List.map_cons, typeOf, typeInstr] at hty
-      cases hb : typeInstr false body (t :: st.map typeOf) with
+      cases hb : typeInstr Mode.strict body (t :: st.map typeOf) with
       | none => simp [hb] at hty
       | some tb =>
         simp only [hb] at hty
@@ -536,11 +540,13 @@ theorem soundE_succ : SoundE env (f + 1) := by
           cases sb with
           | nil => simp at hty
           | cons t' s' =>
-            simp only [Bool.not_false, Bool.true_or, and_true] at hty
+            dsimp only at hty
             split at hty
-            · rename_i hs'
+            · rename_i hs''
+              obtain ⟨hs', _⟩ := hs''
               subst hs'
               simp only [Option.some.injEq] at hty
+              have hb0 := typeInstr_lax hb
               cases hq : Spec.evalMap false env f body false xs st with
               | stuck => simp [hq] at hev
               | failed _ => simp [hq] at hev
@@ -562,7 +568,7 @@ theorem soundE_succ : SoundE env (f + 1) := by
                   have hr : WF r ∧ typeOf r = .list t' := by
                     cases ys with
                     | nil =>
-                      simp only [Spec.listOf, Spec.mapOutTy, hb] at hl
+                      simp only [Spec.listOf, Spec.mapOutTy, hb0] at hl
                       simp at hl; subst hl
                       exact ⟨(wf_list _ _).mpr (allTy_nil _), rfl⟩
                     | cons y rest =>
@@ -581,7 +587,7 @@ theorem soundE_succ : SoundE env (f + 1) := by
       have hall := allTy_iff.mp ((wf_map k v xs).mp hw.1)
       simp only [Spec.eval] at hev
       simp only [List.map_cons, typeOf, typeInstr] at hty
-      cases hb : typeInstr false body (.pair k v :: st.map typeOf) with
+      cases hb : typeInstr Mode.strict body (.pair k v :: st.map typeOf) with
       | none => simp [hb] at hty
       | some tb =>
         simp only [hb] at hty
@@ -591,11 +597,13 @@ theorem soundE_succ : SoundE env (f + 1) := by
           cases sb with
           | nil => simp at hty
           | cons t' s' =>
-            simp only [Bool.not_false, Bool.true_or, and_true] at hty
+            dsimp only at hty
             split at hty
-            · rename_i hs'
+            · rename_i hs''
+              obtain ⟨hs', _⟩ := hs''
               subst hs'
               simp only [Option.some.injEq] at hty
+              have hb0 := typeInstr_lax hb
               cases hq : Spec.evalMap false env f body true xs st with
               | stuck => simp [hq] at hev
               | failed _ => simp [hq] at hev
@@ -617,7 +625,7 @@ theorem soundE_succ : SoundE env (f + 1) := by
                   have hr : WF r ∧ typeOf r = .map k t' := by
                     cases ys with
                     | nil =>
-                      simp only [Spec.mapOf, Spec.mapOutTy, hb] at hl
+                      simp only [Spec.mapOf, Spec.mapOutTy, hb0] at hl
                       simp at hl; subst hl
                       exact ⟨(wf_map _ _ _).mpr (allTy_nil _), rfl⟩
                     | cons y rest =>
@@ -676,6 +684,7 @@ end
 end Interp
 
 namespace Interp
+variable [Mode]
 open Typing
 
 theorem sound_all (env : Env) : ∀ f, SoundE env f ∧ SoundS env f ∧ SoundI env f ∧ SoundM env f
@@ -700,7 +709,7 @@ theorem sound_all (env : Env) : ∀ f, SoundE env f ∧ SoundS env f ∧ SoundI 
 
 /-- **type preservation of the reference semantics** -/
 theorem preservation (env : Env) (fuel : Nat) (i : Instr) (st st' : List Val) (ts : List Ty) (tr : TRes)
-    (hst : StackTy st ts) (hty : typeInstr false i ts = some tr) (hev : Spec.eval false env fuel i st = .ok st') :
+    (hst : StackTy st ts) (hty : typeInstr Mode.strict i ts = some tr) (hev : Spec.eval false env fuel i st = .ok st') :
     ∃ ts', tr = .ok ts' ∧ StackTy st' ts' := by
   obtain ⟨hw, hm⟩ := stackTy_iff.mp hst
   subst hm
